@@ -55,7 +55,12 @@ def _cases(draw):
     a1 = draw(al)
     a2 = draw(al)
     return dict(lead=list(lead), dtype=dtype, mats=mats, alpha=sorted([a1, a2]),
-                alpha_kind=draw(st.sampled_from(["py", "py", "np", "0d"])))
+                alpha_kind=draw(st.sampled_from(["py", "py", "np", "0d"])),
+                # the caller's floating-point error state (warnings escalated to exceptions)
+                fp_raise=draw(st.sampled_from([False, False, True])),
+                # a matrix of extended-precision floats beyond the float64 range
+                ld=dict(base=draw(st.lists(st.integers(0, 6), min_size=4, max_size=4)),
+                        exp=draw(st.sampled_from([1100, 1500, 16000]))))
 
 
 RATES = {
@@ -88,6 +93,44 @@ def _close(a, b, exact, rt=1e-12):
 
 
 def check(case):
+    if case.get("fp_raise"):
+        # rates with a zero denominator are documented to be NaN: they must come back as NaN, not as
+        # a FloatingPointError, also in a process that escalates floating-point warnings
+        with np.errstate(divide="raise", invalid="raise"):
+            out = _check(case)
+        out["labels"] = out["labels"] + ["fp-errors-raise"]
+        return out
+    return _check(case)
+
+
+def _check_longdouble(ld, alpha):
+    """Cells beyond 1.8e308 held as long doubles (power-of-two multiples of small counts): rates are
+    those of the small matrix, intervals are NaN exactly where the rate is and centred on it."""
+    from score_analysis import ConfusionMatrix, metrics
+
+    if np.finfo(np.longdouble).maxexp <= 1024:
+        return  # no extended precision on this platform
+    base = np.asarray(ld["base"], dtype=np.longdouble).reshape(2, 2)
+    M = base * np.longdouble(2) ** ld["exp"]
+    small = np.asarray(ld["base"], dtype=float).reshape(2, 2)
+    for obj_big, obj_small in ((M, small), (ConfusionMatrix(matrix=M, binary=True), ConfusionMatrix(matrix=small, binary=True))):
+        for name in ("tpr", "fnr", "tnr", "fpr", "ppv", "npv", "accuracy", "topr"):
+            f = (lambda o, n=name: getattr(metrics, n)(o)) if isinstance(obj_big, np.ndarray) else (lambda o, n=name: getattr(o, n)())
+            a, b = float(f(obj_big)), float(f(obj_small))
+            require((math.isnan(a) and math.isnan(b)) or a == b, "alg:definition",
+                    f"{name} of {ld['base']} * 2^{ld['exp']} (long double) = {a!r}, of the small matrix {b!r}")
+        for name, rate in (("tpr_ci", "tpr"), ("fnr_ci", "fnr"), ("tnr_ci", "tnr"), ("fpr_ci", "fpr")):
+            if isinstance(obj_big, np.ndarray):
+                ci, p = np.asarray(getattr(metrics, name)(obj_big, alpha), dtype=float), float(getattr(metrics, rate)(obj_big))
+            else:
+                ci, p = np.asarray(getattr(obj_big, name)(alpha=alpha), dtype=float), float(getattr(obj_big, rate)())
+            require(bool(np.isnan(ci).all()) == math.isnan(p) and not (np.isnan(ci).any() and not math.isnan(p)), "ci:nan-locus",
+                    f"{name} of {ld['base']} * 2^{ld['exp']} (long double) = {ci.tolist()} while {rate} = {p!r}")
+            if not math.isnan(p):
+                require(abs((ci[0] + ci[1]) / 2 - p) <= 1e-9, "ci:centre", f"{name} {ci.tolist()} p={p!r}")
+
+
+def _check(case):
     from score_analysis import ConfusionMatrix, metrics
 
     lead = tuple(case["lead"])
@@ -209,6 +252,8 @@ def check(case):
                 require(abs(w[0] - (1 - mi[1])) <= mt and abs(w[1] - (1 - mi[0])) <= mt,
                         "ci:mirror", f"{k} vs {mirror} {ctx}: {w.tolist()} {mi.tolist()}")
     require(np.array_equal(M, M0), "alg:mutated-input", "")
+    if case.get("ld"):
+        _check_longdouble(case["ld"], a1_val)
     labels = [f"dtype:{case['dtype']}", f"rank:{len(lead)}"]
     if 0 in lead:
         labels.append("size0-axis")
@@ -230,4 +275,4 @@ PROP = Prop(
     assumptions=["normal quantile reference: statistics.NormalDist (stdlib)"],
 )
 
-RULE_EXTRA = ('float cells up to 1e100 (beyond the int64 range); matrices stored as uint8 / int16 / uint16 / int32 with cells up to the dtype maximum (row, column and diagonal sums beyond it) and as float32; alphas down to 1e-300 and up to 1-1e-12 with the reference quantile taken through the lower tail; mirror tolerance scaled by the rounding of 1-p.')
+RULE_EXTRA = ('long-double matrices beyond the float64 range; floating-point warnings escalated to exceptions (np.errstate(divide, invalid = raise)) in a third of the cases; float cells up to 1e100 (beyond the int64 range); matrices stored as uint8 / int16 / uint16 / int32 with cells up to the dtype maximum (row, column and diagonal sums beyond it) and as float32; alphas down to 1e-300 and up to 1-1e-12 with the reference quantile taken through the lower tail; mirror tolerance scaled by the rounding of 1-p.')
